@@ -926,11 +926,8 @@ fn step_claim_token(log_on: bool) {
                 assert!(s == Sent::Nothing, "C01/role: nothing is sent in the poll that receives a telegram");
                 if is_reply {
                     assert!(st.state == State::ClaimToken { step: ClaimTokenStep::Scan }, "C12/claim-scan: after a reply the scan continues");
-                    if reports_in_ring(&tel[0]) {
-                        assert!(ring_calls() == 1 && ring_call(0) == RingCall { kind: 2, a, b: 0 }, "C06/readmit: a live ring member that dropped out of this station's ring view and answers 'in ring' is re-admitted as successor");
-                    }
                     if ready {
-                        assert!(ring_calls() == 1 && ring_call(0) == RingCall { kind: 2, a, b: 0 }, "C12/reply-evaluation: a polled station reporting to be a ready master becomes the successor");
+                        assert!(ring_calls() == 1 && ring_call(0) == RingCall { kind: 2, a, b: 0 }, "C02+C06+C12/adopt: a polled station reporting to be a ready master (without token, or - a live member that dropped out of this station's view - already in ring) becomes the successor");
                         kani::cover!(true, "cover: ready master found during the post-claim scan");
                     } else {
                         assert!(ring_calls() == 0, "C12/reply-evaluation: any other reply leaves the successor unchanged");
@@ -1075,13 +1072,9 @@ fn step_await_status_response(log_on: bool) {
         assert!(s == Sent::Nothing, "C01/role: nothing is sent in the poll that receives a telegram");
         if is_reply {
             assert!(st.state == State::PassToken { do_gap: DoGap::No, attempt: PassTokenAttempt::First }, "C12/one-poll-per-visit: after the reply the token is passed on without another poll");
-            if reports_in_ring(&tel[0]) {
-                assert!(ring_calls() == 1 && ring_call(0) == RingCall { kind: 2, a, b: 0 }, "C06/readmit: a live ring member that dropped out of this station's ring view and answers 'in ring' is re-admitted as successor");
-                kani::cover!(true, "cover: dropped ring member re-admitted");
-            }
             if ready {
-                assert!(ring_calls() == 1 && ring_call(0) == RingCall { kind: 2, a, b: 0 }, "C12/reply-evaluation: a polled station reporting to be a ready master becomes the successor");
-                assert!(ring_calls() == 1 && ring_call(0) == RingCall { kind: 2, a, b: 0 }, "C02/join: a station answering a GAP poll as ready master (without token, or already in ring) is taken into the ring view as successor");
+                assert!(ring_calls() == 1 && ring_call(0) == RingCall { kind: 2, a, b: 0 }, "C02+C06+C12/adopt: a polled station reporting to be a ready master (without token, or - a live member that dropped out of this station's view - already in ring) becomes the successor");
+                kani::cover!(reports_in_ring(&tel[0]), "cover: dropped ring member re-admitted");
                 kani::cover!(true, "cover: ready master becomes the successor");
             } else {
                 assert!(ring_calls() == 0, "C12/reply-evaluation: any other reply leaves the successor unchanged");
